@@ -183,9 +183,12 @@ Print Assumptions C19_fixed_load_succeeds.
 (* The model's file system gives the lock file an identity (inode): unlink + re-create is a
    different file, an open descriptor keeps the old one, advisory locks are per file.  Exclusion
    holds for every number of contenders, every order of arrivals, waiters blocked inside acquire
-   when the holder leaves, kills at any point -- PROVIDED release does not remove the lock file. *)
+   when the holder leaves, kills at any point -- PROVIDED release does not remove the lock file and
+   the advisory lock belongs to the open file, not to the OS process.  A model "process" is one
+   contender with its own CacheLock object (own open lock file): a thread, a nested second
+   CacheLock of the same thread, or another OS process; the theorem covers every mix of them. *)
 Theorem C19_fixed_lock_exclusive : forall c ks,
-  unlink_on_release c = false -> cleanup_outside_lock c = false ->
+  unlink_on_release c = false -> per_process_locks c = false -> cleanup_outside_lock c = false ->
   forallb is_fixed_kind ks = true -> lock_exclusive_stmt c ks.
 Proof. exact fixed_lock_stmt. Qed.
 Print Assumptions C19_fixed_lock_exclusive.
@@ -202,6 +205,7 @@ Print Assumptions C19_fixed_finished_population.
 (* the last attempt on a lock held by someone else gives up with the cache
    error and touches nothing; a free lock is obtained at once *)
 Theorem C19_fixed_timeout_gives_cache_error : forall c w p r q,
+  per_process_locks c = false ->
   nth_error (procs w) p = Some r ->
   (pc_of r = FAcquire \/ pc_of r = XAcquire) ->
   lget (locks (sh w)) (lock_ino (sh w) r) = Some q -> max_tries c <= S (tries r) ->
@@ -218,7 +222,7 @@ Theorem C19_fixed_free_lock_acquired : forall c w p r,
   lget (locks (sh w)) (lock_ino (sh w) r) = None ->
   exists r', proc_at (step c w (Run p)) p = Some r' /\ holding (pc_of r') = true /\
              fd r' = Some (lock_ino (sh w) r) /\
-             lget (locks (sh (step c w (Run p)))) (lock_ino (sh w) r) = Some p.
+             lget (locks (sh (step c w (Run p)))) (lock_ino (sh w) r) = Some (hid c r p).
 Proof. exact fixed_free_lock_acquired. Qed.
 Print Assumptions C19_fixed_free_lock_acquired.
 
@@ -302,6 +306,38 @@ Theorem C19_memo_contrast :
   exists r, nth_error (procs w) 2 = Some r /\ nreq r = 0 /\ cache_err r = true.
 Proof. exact memo_contrast. Qed.
 Print Assumptions C19_memo_contrast.
+
+(* ANTI-PATTERN, refuted: a locking primitive whose locks belong to the OS PROCESS (POSIX record
+   locks / fcntl.lockf).  Contenders in different processes still exclude each other, but with two
+   contenders of ONE process (threads, or a nested CacheLock) and a third in another process:
+   A holds; B, in A's process, gets in at once (overlap, no timeout); B leaves and thereby drops
+   the process's lock; Q in the other process enters while A is still inside.  With locks that
+   belong to the open file the same arrivals end with B giving up and Q waiting (contrast). *)
+Theorem C19_lock_exclusive_per_process_refuted :
+  exists c ks, forallb is_fixed_kind ks = true /\ per_process_locks c = true /\
+               ~ lock_exclusive_stmt c ks.
+Proof. exact lock_exclusive_per_process_refuted. Qed.
+Print Assumptions C19_lock_exclusive_per_process_refuted.
+
+Theorem C19_same_process_witness :
+  (let w := run c2p (init t0 ks_same) ev_same_1 in
+   exists ra rb, nth_error (procs w) 0 = Some ra /\ nth_error (procs w) 2 = Some rb /\
+                 holding (pc_of ra) = true /\ holding (pc_of rb) = true /\ tries rb = 0) /\
+  (let w := run c2p (init t0 ks_same) ev_same_2 in
+   exists ra rq, nth_error (procs w) 0 = Some ra /\ nth_error (procs w) 1 = Some rq /\
+                 holding (pc_of ra) = true /\ holding (pc_of rq) = true /\
+                 outcome_of w 2 = Some OSkipped).
+Proof. exact same_process_witness. Qed.
+Print Assumptions C19_same_process_witness.
+
+Theorem C19_same_process_contrast :
+  let w := run c2 (init t0 ks_same) (runs 0 2 ++ [Run 1] ++ runs 2 4 ++ [Run 1]) in
+  exists ra rq rb, nth_error (procs w) 0 = Some ra /\ nth_error (procs w) 1 = Some rq /\
+                   nth_error (procs w) 2 = Some rb /\
+                   holding (pc_of ra) = true /\ holding (pc_of rq) = false /\ tries rq = 1 /\
+                   pc_of rb = Done OSkipped /\ cache_err rb = true.
+Proof. exact same_process_contrast. Qed.
+Print Assumptions C19_same_process_contrast.
 
 (* ---- non-vacuity ----------------------------------------------------------- *)
 
